@@ -207,6 +207,10 @@ class Recorder:
         if ok:
             self.number(who + ".image_number", getattr(md, "image_number", None))
             self.number(who + ".unit_number", getattr(md, "unit_number", None), optional=True)
+            for dim in ("width", "height"):
+                v = getattr(md, dim, None)
+                c = "float" if isinstance(v, float) else "int" if isinstance(v, int) and not isinstance(v, bool) else _cls(v)
+                self.ev.append({"a": "Size", "who": f"{who}.{dim}", "cls": c})
 
     def unit(self, who, u):
         self.text(who + ".get_text", u.get_text)
@@ -231,7 +235,13 @@ class Recorder:
     def filemeta(self, who, md):
         fdir, fpn = proj_file(getattr(md, "file_path", None), self.roots)
         fn, ext = getattr(md, "filename", None), getattr(md, "file_extension", None)
-        self.ev.append({"a": "FileMeta", "who": who, "mtype": type(md).__name__,
+        strs_ok = True
+        for k, v in (vars(md).items() if hasattr(md, "__dict__") else []):
+            vals = v if isinstance(v, (list, tuple)) else [v]
+            for x in vals:
+                if isinstance(x, str) and not _utf8(x):
+                    strs_ok = False
+        self.ev.append({"a": "FileMeta", "who": who, "mtype": type(md).__name__, "strsutf8": strs_ok,
                         "fnk": _cls(fn), "fn": _pieces(fn), "extk": _cls(ext), "ext": _pieces(ext),
                         "dir": proj_dir(getattr(md, "folder_path", None), self.roots), "fdir": fdir, "fpn": fpn})
 
@@ -651,3 +661,222 @@ def alt_variant(pkg: bytes, fmt, alt) -> bytes:
     if count[0] == 0:
         raise ValueError(f"no picture element found in the {fmt} package (writer changed?)")
     return out
+
+
+# ----------------------------------------------------------------------------- four pictures; where their bytes come from
+def four_images(doc, fmt):
+    """Add two pictures to the first unit of a docrun.rich_doc (first / middle / last positions exist)."""
+    from .writers.images import make
+    extra = [make("png", 3, 3, 7), make("png", 4, 2, 9)]
+    k = doc.get("kind", "flow")
+    if fmt == "docx":
+        doc["images"] += [{"target": f"media/image{n}.png", "part": f"word/media/image{n}.png", "data": d}
+                          for n, d in zip((3, 4), extra)]
+    elif fmt == "odt":
+        doc["images"] += [{"target": f"Pictures/c{n}.png", "part": f"Pictures/c{n}.png", "data": d} for n, d in zip((3, 4), extra)]
+    elif k == "deck":
+        pre, part = ("../media/", "ppt/media/") if fmt == "pptx" else ("Pictures/", "Pictures/")
+        doc["slides"][0]["images"] += [{"target": f"{pre}j{n}.png", "part": f"{part}j{n}.png", "data": d}
+                                       for n, d in zip((3, 4), extra)]
+    elif k == "book":
+        pre, part = ("../media/", "xl/media/") if fmt == "xlsx" else ("Pictures/", "Pictures/")
+        doc["sheets"][0]["images"] += [{"target": f"{pre}j{n}.png", "part": f"{part}j{n}.png", "data": d}
+                                       for n, d in zip((3, 4), extra)]
+    return doc
+
+
+SRC_TARGET = {"http": "http://example.invalid/pic.png", "https": "https://example.invalid/a/b/pic.png",
+              "dangling": "missing-c04.png", "outside": "../../outside-c04.png"}
+ODF_FORMATS = ("odt", "ods", "odp", "odg")
+ALT_FORMATS = ODF_FORMATS + ("docx", "pptx", "xlsx")
+
+
+def _pick(n, pos):
+    return {"first": 0, "middle": 1 if n > 2 else 0, "last": n - 1}[pos]
+
+
+def _members(pkg):
+    import zipfile
+    z = zipfile.ZipFile(io.BytesIO(pkg))
+    return {i.filename: z.read(i) for i in z.infolist()}
+
+
+def src_variant(pkg: bytes, fmt, pos, src) -> bytes:
+    """Post-process the shared writer's package: the first / middle / last picture is linked (URL), or points to
+    a package path that does not exist, or outside the package."""
+    import re
+    files = _members(pkg)
+    if fmt in ODF_FORMATS:
+        x = files["content.xml"].decode("utf-8")
+        ms = list(re.finditer(r'(<draw:image\b[^>]*?xlink:href=")([^"]*)(")', x))
+        if not ms:
+            raise ValueError(f"no draw:image in the {fmt} package")
+        m = ms[_pick(len(ms), pos)]
+        tgt = SRC_TARGET[src] if src != "dangling" else "Pictures/" + SRC_TARGET[src]
+        new = {"content.xml": (x[:m.start(2)] + tgt + x[m.end(2):]).encode("utf-8")}
+    else:
+        part = max((n for n in files if n.endswith(".xml") and b"r:embed=" in files[n]),
+                   key=lambda n: files[n].count(b"r:embed="), default=None)
+        if part is None:
+            raise ValueError(f"no r:embed in the {fmt} package")
+        x = files[part].decode("utf-8")
+        ids = re.findall(r'r:embed="([^"]+)"', x)
+        rid = ids[_pick(len(ids), pos)]
+        d, _, base = part.rpartition("/")
+        rels_name = f"{d}/_rels/{base}.rels"
+        rels = files[rels_name].decode("utf-8")
+        rm = re.search(r'<Relationship\b[^>]*\bId="%s"[^>]*/>' % re.escape(rid), rels)
+        old_t = re.search(r'Target="([^"]*)"', rm.group(0)).group(1)
+        if src in ("http", "https"):
+            rel = re.sub(r'Target="[^"]*"', f'Target="{SRC_TARGET[src]}" TargetMode="External"', rm.group(0))
+            x = x.replace(f'r:embed="{rid}"', f'r:link="{rid}"', 1)
+        elif src == "dangling":
+            rel = rm.group(0).replace(old_t, old_t.rpartition("/")[0] + "/" + SRC_TARGET[src] if "/" in old_t else SRC_TARGET[src])
+        else:
+            rel = rm.group(0).replace(old_t, SRC_TARGET[src])
+        new = {part: x.encode("utf-8"), rels_name: (rels[:rm.start()] + rel + rels[rm.end():]).encode("utf-8")}
+    return _rezip(pkg, lambda n, dta: new.get(n, dta))
+
+
+# ----------------------------------------------------------------------------- picture geometry
+LEN_VALUE = {"cm": "2.5cm", "mm": "25mm", "in": "1.25in", "pt": "72pt", "px": "96px", "pc": "6pc", "percent": "50%",
+             "comma": "12,5cm", "exponent": "1.5e1cm", "negative": "-2cm", "empty": "", "garbage": "abc", "missing": None,
+             "nounit": "12", "spaced": " 3 cm ", "huge": "99999999999999999999cm", "zero": "0cm", "dotonly": ".5cm",
+             "nan": "nancm", "unitonly": "cm", "twounits": "2cm3mm"}
+EMU_VALUE = {"zero": "0", "negative": "-914400", "huge": "99999999999999999999", "nonnumeric": "abc", "empty": "",
+             "missing": None, "float": "914400.5", "plus": "+914400"}
+
+
+def _set_attr(tag_text, attr, value):
+    import re
+    tag_text = re.sub(r'\s%s="[^"]*"' % re.escape(attr), "", tag_text)
+    if value is None:
+        return tag_text
+    end = "/>" if tag_text.endswith("/>") else ">"
+    return tag_text[:-len(end)] + f' {attr}="{_xesc(value, chr(34))}"' + end
+
+
+def len_variant(pkg: bytes, fmt, attr, kind) -> bytes:
+    """Post-process the shared writer's package: every picture frame / extent carries the odd geometry value."""
+    import re
+    n = [0]
+    if fmt in ODF_FORMATS:
+        v = LEN_VALUE[kind]
+        attrs = {"width": ["svg:width"], "height": ["svg:height"], "x": ["svg:x"], "y": ["svg:y"],
+                 "both": ["svg:width", "svg:height"]}[attr]
+
+        def frame(m):
+            n[0] += 1
+            t = m.group(1)
+            for a in attrs:
+                t = _set_attr(t, a, v)
+            return t + m.group(2)
+
+        def edit(part, data):
+            if part != "content.xml":
+                return data
+            return re.sub(r"(<draw:frame\b[^>]*>)(<draw:image\b)", frame, data.decode("utf-8")).encode("utf-8")
+    else:
+        v = EMU_VALUE[kind]
+        attrs = {"cx": ["cx"], "cy": ["cy"], "both": ["cx", "cy"]}[attr]
+        pat = {"docx": r"<wp:extent\b[^>]*/>", "xlsx": r"<xdr:ext\b[^>]*/>",
+               "pptx": r"(?<=<p:spPr><a:xfrm>)(?:<a:off\b[^>]*/>)?<a:ext\b[^>]*/>"}[fmt]
+
+        def ext(m):
+            n[0] += 1
+            t = m.group(0)
+            head = ""
+            if fmt == "pptx" and t.startswith("<a:off"):
+                head, t = t[:t.index("/>") + 2], t[t.index("/>") + 2:]
+            for a in attrs:
+                t = _set_attr(t, a, v)
+            return head + t
+
+        def edit(part, data):
+            if not part.endswith(".xml") or b"blip" not in data:
+                return data
+            x = data.decode("utf-8")
+            if fmt == "pptx":      # only the extents of pictures
+                return re.sub(r"<p:pic>.*?</p:pic>", lambda pm: re.sub(pat, ext, pm.group(0)), x, flags=re.S).encode("utf-8")
+            return re.sub(pat, ext, x).encode("utf-8")
+    out = _rezip(pkg, edit)
+    if n[0] == 0:
+        raise ValueError(f"no picture geometry found in the {fmt} package (writer changed?)")
+    return out
+
+
+# ----------------------------------------------------------------------------- tagged PDF with odd string bytes
+def _pdf_string(raw: bytes, enc: str) -> bytes:
+    if enc in ("hex", "utf16"):
+        return b"<" + raw.hex().encode() + b">"
+    out = bytearray(b"(")
+    for b in raw:
+        if b in b"()\\":
+            out += b"\\" + bytes([b])
+        elif b < 32 or b > 126:
+            out += b"\\%03o" % b
+        else:
+            out.append(b)
+    return bytes(out + b")")
+
+
+def tagged_pdf(case) -> bytes:
+    """Minimal tagged PDF (own writer): one figure (image XObject in marked content) whose caption / description
+    string holds the byte (or the unpaired UTF-16 surrogate) of the abstract case, at the place it names."""
+    place, enc, b = case["place"], case["enc"], case["byte"]
+    if enc == "utf16":
+        raw = b"\xfe\xff" + "Fig zq ".encode("utf-16-be") + b.to_bytes(2, "big") + " end".encode("utf-16-be")
+    else:
+        raw = b"Figure zq co" + bytes([b]) + b"operation end"
+    s = _pdf_string(raw, enc)
+    fig = b"q 20 0 0 20 72 700 cm /Im0 Do Q"
+    txt = b"BT /F1 12 Tf 72 680 Td %s ET"
+    alt = b""
+    if place == "caption":
+        content = b"/Figure <</MCID 0>> BDC " + fig + b" EMC\n/Caption <</MCID 1>> BDC " + txt % (s + b" Tj") + b" EMC\n"
+    elif place == "same":
+        content = b"/Figure <</MCID 0>> BDC " + fig + b" " + txt % (s + b" Tj") + b" EMC\n"
+    elif place == "tjarray":
+        content = (b"/Figure <</MCID 0>> BDC " + fig + b" EMC\n/Caption <</MCID 1>> BDC "
+                   + txt % (b"[(Fig ) -120 " + s + b" 30 (.)] TJ") + b" EMC\n")
+    elif place == "actualtext":
+        content = (b"/Figure <</MCID 0>> BDC " + fig + b" EMC\n/Span <</MCID 1 /ActualText " + s + b">> BDC "
+                   + txt % b"(x) Tj" + b" EMC\n")
+    else:                      # no marked content around the figure: the extractor falls back to the XObject's /Alt
+        alt = b" /Alt " + s
+        content = fig + b"\n"
+    content += b"/P <</MCID 2>> BDC BT /F1 12 Tf 72 650 Td (zq0001x zq0002x) Tj ET EMC\n"
+    pixels = bytes([255, 0, 0] * 4)
+    objs = [b"<< /Type /Catalog /Pages 2 0 R /MarkInfo << /Marked true >> >>",
+            b"<< /Type /Pages /Kids [3 0 R] /Count 1 >>",
+            b"<< /Type /Page /Parent 2 0 R /MediaBox [0 0 612 792] /Contents 4 0 R "
+            b"/Resources << /Font << /F1 5 0 R >> /XObject << /Im0 6 0 R >> >> >>",
+            b"<< /Length %d >>\nstream\n" % len(content) + content + b"endstream",
+            b"<< /Type /Font /Subtype /Type1 /BaseFont /Helvetica /Encoding /WinAnsiEncoding >>",
+            b"<< /Type /XObject /Subtype /Image /Width 2 /Height 2 /ColorSpace /DeviceRGB /BitsPerComponent 8"
+            + alt + b" /Length %d >>\nstream\n" % len(pixels) + pixels + b"\nendstream"]
+    out = bytearray(b"%PDF-1.4\n%\xe2\xe3\xcf\xd3\n")
+    offs = []
+    for i, body in enumerate(objs, start=1):
+        offs.append(len(out))
+        out += b"%d 0 obj\n" % i + body + b"\nendobj\n"
+    xref = len(out)
+    out += b"xref\n0 %d\n0000000000 65535 f \n" % (len(objs) + 1)
+    for o in offs:
+        out += b"%010d 00000 n \n" % o
+    out += b"trailer\n<< /Size %d /Root 1 0 R >>\nstartxref\n%d\n%%%%EOF\n" % (len(objs) + 1, xref)
+    return bytes(out)
+
+
+# ----------------------------------------------------------------------------- HTML numeric character references
+NCR = {"hi": "&#55357;", "lo": "&#xDE00;", "pair": "&#xD83D;&#xDE00;", "beyond": "&#1114112;", "nul": "&#0;", "c1": "&#150;"}
+
+
+def ncr_html(place, ref) -> bytes:
+    r = NCR[ref]
+    w = {p: (f" {r} " if p == place else " ") for p in ("title", "meta", "body", "alt", "cell")}
+    return ("<!DOCTYPE html><html><head><meta charset=\"utf-8\"><title>T{title}t</title>"
+            "<meta name=\"author\" content=\"A{meta}a\"><meta name=\"description\" content=\"D{meta}d\"></head><body>"
+            "<h1>zq0003x</h1><p>zq0001x{body}zq0002x</p><p><img src=\"x.png\" alt=\"pic{alt}p\"></p>"
+            "<table><tr><td>c{cell}c</td><td>zq0004x</td></tr><tr><td>zq0005x</td><td>zq0006x</td></tr></table>"
+            "</body></html>").format(**w).encode("utf-8")
